@@ -190,6 +190,7 @@ class Result:
         self.dead = 0
         self.inconclusive = 0
         self.budget_exceeded = False
+        self.sampled = 0        # certified assignments found by randomised completion of under-determined leaves
 
     def verdict(self, honest):
         """'unique' | 'extra' | 'free' | 'unsat' | 'inconclusive'"""
@@ -258,6 +259,9 @@ def solve(cons, fixed, p, result_lcs, maxleaves=200000, unknown_hint=()):
             pend_params |= ps
         if dep & pend_params:
             res.inconclusive += 1
+            # the deferred constraints are under-determined in several parameters at once: play the cheating prover by sampling -
+            # specialise all but one parameter of a deferred constraint, solve for the rest, certify whatever comes out
+            _sample(s, result_lcs, cons, p, res)
             continue
         if pend:
             a0 = _concrete(s, _complete({}, absorbed, p))
@@ -283,6 +287,47 @@ def solve(cons, fixed, p, result_lcs, maxleaves=200000, unknown_hint=()):
                 continue
             res.values[tup] = a0
     return res
+
+
+def _sample(s, result_lcs, cons, p, res, tries=24):
+    """randomised completion of a leaf whose deferred constraints involve the result; only certified assignments are kept"""
+    import random
+    rnd = random.Random(res.leaves * 7919 + len(cons))
+    for _ in range(tries):
+        n = s.copy()
+        try:
+            for _step in range(4 * len(cons) + 8):
+                kids = _propagate(n)
+                while kids is not None:
+                    n = rnd.choice(kids)
+                    kids = _propagate(n)
+                multi = []
+                for con in n.pending:
+                    q, l = poly(n.lc(con[0]), n.lc(con[1]), n.lc(con[2]), p)
+                    ps = _params(q, l)
+                    if ps:
+                        multi.append(sorted(ps, key=repr))
+                if not multi:
+                    break
+                ps = rnd.choice(multi)
+                keep = rnd.choice(ps)
+                for t in ps:
+                    if t != keep:
+                        v = rnd.choice([0, 1, 2, p - 1, rnd.randrange(p), rnd.randrange(p)])
+                        n.assign(t, {None: v} if v else {})
+            else:
+                continue
+        except Dead:
+            continue
+        a0 = _concrete(n, {})
+        if r1cs.unsatisfied(cons, a0, p):
+            continue
+        tup = tuple(r1cs.eval_lc(d, a0, p) for d in result_lcs)
+        res.sampled += 1
+        if tup not in res.values:
+            res.values[tup] = a0
+            if len(res.values) >= 3:
+                return
 
 
 def _complete(params, absorbed, p):
